@@ -181,7 +181,6 @@ funcs: spif_mbuff_get_len, spif_mbuff_get_size, spif_mbuff_set_len, spif_mbuff_s
 #define RV  __CPROVER_return_value
 #define OLEN(o)   __CPROVER_old((o)->len)
 #define OLD_BYTE(o, k)  __CPROVER_old((o)->buff[VCLAMP((k), (o)->len)])
-long w_idx, w_cnt;
 
 #ifdef U_CLEAR
 spif_bool_t spif_mbuff_clear(spif_mbuff_t self, spif_uint8_t c)
